@@ -455,6 +455,23 @@ func c17(run *ev.Run, tier string) {
 		s.Contents = []*gen.Content{{Src: payload, Dst: "/opt/schemapkg/p.txt"}}
 		return s
 	}
+	// the parser is as strict when the document arrives on standard input
+	{
+		good := base().YAML()
+		for _, extra := range []string{"", "verif_unknown_key: x\n", "depend: [typo]\n"} {
+			tgt := filepath.Join(dir, fmt.Sprintf("stdin-%d.deb", len(extra)))
+			_, _, code, err := runCmd([]byte(good+"\n"+extra), dir, nil, bin, "package", "-f", "-", "-p", "deb", "-t", tgt)
+			run.Case("stdin|unknown-key="+strings.SplitN(extra, ":", 2)[0], true)
+			_, serr := os.Stat(tgt)
+			switch {
+			case err != nil:
+			case extra == "" && (code != 0 || serr != nil):
+				run.Set("stdin_note", "the tool did not build from standard input in this environment")
+			case extra != "" && code == 0 && serr == nil:
+				run.Violate("C17/key-path-only-in-parser/document-from-standard-input", map[string]any{"injected": strings.TrimSpace(extra)})
+			}
+		}
+	}
 	// (2) enumerated values
 	for _, t := range []string{"", "file", "config", "config|noreplace", "config|missingok", "dir", "symlink", "tree", "ghost", "doc", "licence", "license", "readme"} {
 		s := base()
@@ -533,6 +550,13 @@ func c17(run *ev.Run, tier string) {
 		s := base()
 		s.Platform = pl
 		docs = append(docs, c17Doc{"platform|" + pl, s.YAML(), []string{"deb", "rpm"}})
+	}
+	for _, mt := range []string{"2024-01-15T10:00:00+13:00", "2024-01-15T10:00:00+13:45", "2024-01-15T10:00:00+14:00", "2024-01-15T10:00:00-12:00", "1969-07-20T20:17:40Z", "2024-01-15T10:00:00.123456789Z"} {
+		// every time stamp the parser takes is one the schema takes
+		raw := strings.Replace(base().YAML(), "mtime: 2017-07-14T02:40:00Z", "mtime: "+mt, 1)
+		if strings.Contains(raw, "mtime: "+mt) {
+			docs = append(docs, c17Doc{"mtime|" + mt, raw, []string{"deb", "apk"}})
+		}
 	}
 	{
 		// list settings keep repeated items: the schema must not call them sets
